@@ -132,6 +132,22 @@ def domain(tier):
             yield unit_case(comp, data, cpu, bw, d, unit)
 
 
+def speed_sweep(tier):
+    """Every machine speed (and, separately, bandwidth) 1..N and the speeds
+    of the repository's own configurations x every exact multiple k*speed,
+    k <= 12, and the value just below it: floor(work/speed) at the points
+    where an inexact quotient would be off by one."""
+    N = 512 if tier == "thorough" else 200
+    speeds = list(range(1, N + 1)) + [600, 2940, 5040, 6000, 7000, 11000,
+                                      35000]
+    for c in speeds:
+        for k in range(0, 13):
+            for r in ((0, -1) if k else (0,)):
+                w = k * c + r
+                yield unit_case(w, 0, c, 1, 0, "seconds")
+                yield unit_case(0, w, 1, c, 0, "seconds")
+
+
 def history_domain(tier):
     """Two-step histories: the same (comp, data, delay) first on a machine of
     the same id with another speed, bandwidth or timestep unit."""
@@ -155,8 +171,8 @@ def run(rep, tier, seed):
     rep.rule = RULE
     rep.assumptions = ["delay model output injected through the "
                        "generate_delay seam (ScriptedDelay)"]
-    items = common.rotate(list(domain(tier)) + list(history_domain(tier)),
-                          seed)
+    items = common.rotate(list(domain(tier)) + list(history_domain(tier))
+                          + list(speed_sweep(tier)), seed)
 
     def work(i, c):
         r = run_unit(c)
@@ -169,7 +185,12 @@ def run(rep, tier, seed):
         sc["executions"] += 1
         rep.evaluations += 1
         rep.transitions += r.get("events", 0)
-        if c.get("before"):
+        if c["cpu"] > 16 or c["bw"] > 16:
+            sc = rep.scope("E3-task-unit/speed-sweep")
+            sc["cases"] += 1
+            sc["executions"] += 1
+            sc = rep.scope("E3-task-unit")
+        elif c.get("before"):
             sc = rep.scope("E3-task-unit/after-another-machine-of-same-id")
             sc["cases"] += 1
             sc["executions"] += 2
